@@ -156,6 +156,7 @@ func (c07) Run(c *wk.Case) {
 			if c.Verbose {
 				c.Logf("  args %v [%s]: reference %s err=%v | real %s err=%v", describeArgs(tu), gname, ref.Describe(wv), we, bridge.Describe(got.Val), got.Err)
 			}
+			got.FloatTol = regroupTol(gname == "optimizer", src)
 			if v, why := bridge.CompareOutcome(wv, we, rae, got); v == bridge.Disagree {
 				small, swhy := shrinkDisagreement(vl, prog, p.ArgNames, [][]ref.Value{tu}, ref.PrintOpts{})
 				c.Violation("builtin:"+full, fmt.Sprintf("[%s %s, %s] %q with %v: %s || reduced: %q: %s", full, mode, gname, src, describeArgs(tu), why, small, swhy),
